@@ -104,7 +104,7 @@ def run(ctx):
     for kind, cls in (('file', 'MCCls'), ('mapping', 'MCClsPlain')):
         S.model_check(ctx, kind + '-oid', sd.consts(kind, NOid=4, MaxTxn=2, MaxRecs=2, AtomVals=('v1',), MaxClock=1, Cls=cls),
                       invariants=['TypeOK'], properties=['OidFresh'])
-    big = dict(NOid=8, Metas=('m0',), MaxTxn=6, MaxRecs=3, MaxClock=1, AtomVals=('v1',))
+    big = dict(NOid=8, Metas=('m0',), MaxTxn=6, MaxRecs=3, MaxClock=2, AtomVals=('v1',))
     num = 300 if q else 5000
     cov = {}
     for kind, cls in (('file', 'MCCls'), ('mapping', 'MCClsPlain')):
